@@ -43,6 +43,8 @@ type c18Txn struct {
 	// NilCallback (without Callback): the writer comes from LMTPData(nil)
 	// instead of Data() - another way of supplying no callback
 	NilCallback bool `json:"nil_callback,omitempty"`
+	// Dup: the last recipient has the same address as the first
+	Dup bool `json:"dup,omitempty"`
 	Reset    bool      `json:"reset"`    // Client.Reset after the transaction
 	// SlowAt > 0: the delivery to the SlowAt-th accepted recipient (1-based)
 	// is slow: its status is held back until the client waits for it, then
@@ -69,12 +71,23 @@ type c18Status struct {
 	err  *smtp.SMTPError
 }
 
+// c18Addr is the address of the ri-th recipient of transaction ti: with Dup
+// the last recipient repeats the first one's address (RFC 2033: one reply per
+// successful RCPT, also for a repeated address; each occurrence has a verdict
+// of its own).
+func c18Addr(tx c18Txn, ti, ri int) string {
+	if tx.Dup && ri > 0 && ri == len(tx.Rcpts)-1 {
+		ri = 0
+	}
+	return fmt.Sprintf("t%dr%d@x", ti, ri)
+}
+
 func c18Run(c c18Case) Verdict {
 	script := harness.Script{LMTPSession: true}
 	for ti, tx := range c.Txns {
 		plan := harness.DataPlan{Read: harness.ReadPlan{Limit: -1}}
 		for ri, rc := range tx.Rcpts {
-			addr := fmt.Sprintf("t%dr%d@x", ti, ri)
+			addr := c18Addr(tx, ti, ri)
 			if !rc.Accept {
 				script.Rcpt = append(script.Rcpt, harness.Decision{Kind: "smtp", Code: 550, Enh: [3]int{5, 1, 1}, Msg: "no such user " + addr})
 				continue
@@ -82,7 +95,7 @@ func c18Run(c c18Case) Verdict {
 			script.Rcpt = append(script.Rcpt, harness.Decision{})
 			d := harness.Decision{}
 			if !rc.Deliver {
-				d = harness.Decision{Kind: "smtp", Code: rc.code(), Enh: [3]int{rc.code() / 100, 2, 2}, Msg: "verdict-for-" + addr}
+				d = harness.Decision{Kind: "smtp", Code: rc.code(), Enh: [3]int{rc.code() / 100, 2, 2}, Msg: fmt.Sprintf("verdict-%d-for-%s", ri, addr)}
 			}
 			plan.Status = append(plan.Status, harness.StatusCall{Rcpt: addr, D: d, AfterRead: true, Gate: tx.SlowAt == len(plan.Status)+1})
 		}
@@ -118,7 +131,7 @@ func c18Run(c c18Case) Verdict {
 			}
 			any := false
 			for ri, rc := range tx.Rcpts {
-				err := cl.Rcpt(fmt.Sprintf("t%dr%d@x", ti, ri), nil)
+				err := cl.Rcpt(c18Addr(tx, ti, ri), nil)
 				if rc.Accept && err != nil {
 					setupErr = fmt.Errorf("txn %d Rcpt %d: %w", ti, ri, err)
 					return
@@ -300,12 +313,12 @@ func c18Run(c c18Case) Verdict {
 			if !rc.Accept {
 				continue
 			}
-			addr := fmt.Sprintf("t%dr%d@x", ti, ri)
+			addr := c18Addr(tx, ti, ri)
 			if rc.Deliver {
 				want = append(want, c18Status{addr, nil})
 			} else {
 				anyNeg = true
-				want = append(want, c18Status{addr, &smtp.SMTPError{Code: rc.code(), EnhancedCode: smtp.EnhancedCode{rc.code() / 100, 2, 2}, Message: "verdict-for-" + addr}})
+				want = append(want, c18Status{addr, &smtp.SMTPError{Code: rc.code(), EnhancedCode: smtp.EnhancedCode{rc.code() / 100, 2, 2}, Message: fmt.Sprintf("verdict-%d-for-%s", ri, addr)}})
 			}
 		}
 		if len(want) == 0 {
@@ -664,6 +677,7 @@ func TestC18(t *testing.T) {
 		for i, n := 0, rapid.IntRange(1, 3).Draw(rt, "ntxn"); i < n; i++ {
 			tx := c18Txn{Callback: rapid.Bool().Draw(rt, "callback"), Reset: rapid.IntRange(0, 3).Draw(rt, "reset") == 0}
 			tx.NilCallback = !tx.Callback && rapid.Bool().Draw(rt, "nil_callback")
+			tx.Dup = rapid.IntRange(0, 3).Draw(rt, "dup") == 0
 			for j, m := 0, rapid.IntRange(1, 3).Draw(rt, "nrcpt"); j < m; j++ {
 				rc := c18Rcpt{Accept: rapid.IntRange(0, 3).Draw(rt, "accept") != 0, Deliver: rapid.Bool().Draw(rt, "deliver")}
 				if rapid.Bool().Draw(rt, "other_code") {
